@@ -707,6 +707,9 @@ func (c *Config) UnmarshalYAML(unmarshal func(any) error) error {
 // references a receiver not in the given map.
 func checkReceiver(r *Route, receivers map[string]struct{}) error {
 	for _, sr := range r.Routes {
+		if sr == nil {
+			return errors.New("empty route in routes list")
+		}
 		if err := checkReceiver(sr, receivers); err != nil {
 			return err
 		}
